@@ -250,7 +250,9 @@ func mapValIdx(v Val, f func(t string, i int) string) Val {
 			vv := rec(x.Val)
 			i++
 			l := f(x.Len, i)
-			return Mp{h, vv, l, x.K, x.V, x.KS}
+			i++
+			nl := f(x.Nil, i)
+			return Mp{h, vv, l, x.K, x.V, x.KS, nl}
 		case Tup:
 			ne := make([]Val, len(x.E))
 			for k := range x.E {
@@ -298,7 +300,7 @@ func collectSortsL(v Val, out *[]string, base []string) {
 		case Mp:
 			*out = append(*out, liftSort(arrSort(x.KS, SBool), lift))
 			rec(x.Val, append(append([]string{}, lift...), x.KS))
-			*out = append(*out, liftSort(SInt, lift))
+			*out = append(*out, liftSort(SInt, lift), liftSort(SBool, lift))
 		case Tup:
 			for _, e := range x.E {
 				rec(e, lift)
@@ -491,7 +493,42 @@ func (x *Exec) execStmt(s ast.Stmt, st *State) *State {
 	panic(unsupported("statement %T", s))
 }
 
+// aliasRoot: if e denotes (part of) a parameter's or receiver's storage
+// (through field selection, indexing, slicing), returns that parameter.
+func (x *Exec) aliasRoot(e ast.Expr) *types.Var {
+	for {
+		switch t := ast.Unparen(e).(type) {
+		case *ast.Ident:
+			if v, ok := x.info.Uses[t].(*types.Var); ok && (x.isParam(v) || (x.sig.Recv() != nil && v == x.sig.Recv())) {
+				return v
+			}
+			return nil
+		case *ast.SelectorExpr:
+			if x.info.Selections[t] == nil {
+				return nil
+			}
+			e = t.X
+		case *ast.IndexExpr:
+			e = t.X
+		case *ast.SliceExpr:
+			e = t.X
+		case *ast.StarExpr:
+			e = t.X
+		default:
+			return nil
+		}
+	}
+}
+
 func (x *Exec) execReturn(n *ast.ReturnStmt, st *State) *State {
+	if x.contract != nil && x.contract.FreshResult && x.depth == 0 {
+		for _, r := range n.Results {
+			if k, _ := classify(x.typeOf(r)); k == kSlice || k == kMap {
+				root := x.aliasRoot(r)
+				x.c.oblige("fresh-result", "", st.pc, boolTerm(root == nil), n.Pos(), "returned slice/map does not alias the receiver's or a parameter's storage")
+			}
+		}
+	}
 	var res Val
 	nres := x.sig.Results().Len()
 	switch {
@@ -687,6 +724,9 @@ func (x *Exec) modifiedIn(nodes ...ast.Node) *modSet {
 		case *ast.SelectorExpr:
 			// field of a reference-typed pointer: heap write
 			xt := x.typeOf(n.X)
+			if sel := x.info.Selections[n]; sel != nil && sel.Kind() != types.FieldVal {
+				return rootOf(n.X)
+			}
 			if k, name := classify(xt); k == kRef {
 				return nil, []string{name + "." + n.Sel.Name}
 			}
@@ -717,6 +757,9 @@ func (x *Exec) modifiedIn(nodes ...ast.Node) *modSet {
 		// writes through x.f[i] where x is a ref: the heap field f
 		ast.Inspect(e, func(nn ast.Node) bool {
 			if se, ok := nn.(*ast.SelectorExpr); ok {
+				if sel := x.info.Selections[se]; sel == nil || sel.Kind() != types.FieldVal {
+					return true
+				}
 				if tv, ok := x.info.Types[se.X]; ok {
 					if k, name := classify(tv.Type); k == kRef {
 						ms.heap[name+"."+se.Sel.Name] = true
@@ -775,7 +818,9 @@ func (x *Exec) modifiedIn(nodes ...ast.Node) *modSet {
 					}
 					if id.Name == "delete" || id.Name == "copy" {
 						if len(n.Args) > 0 {
-							mark(n.Args[0])
+							if o, _ := rootOf(n.Args[0]); o != nil {
+								ms.partial[o] = true // contents change, header (len of slice / nil-ness) does not
+							}
 						}
 					}
 				}
@@ -848,6 +893,10 @@ func (x *Exec) havoc(st *State, ms *modSet, hint string) {
 		case Pt:
 			n := nv.(Pt)
 			st.vars[o] = Pt{ov.Nil, n.Elem, ov.T}
+		case Mp:
+			n := nv.(Mp)
+			n.Nil = ov.Nil
+			st.vars[o] = n
 		default:
 			st.vars[o] = nv
 		}
